@@ -15,5 +15,7 @@ def sweep(ctx, n, kinds, oracles, signatures, corpus=(), opts=None, allow_zip=Tr
         flavour = ("future", "coro", "tornado")[i % 3]
         o = dict(opts or {})
         o.setdefault("awaiting", rng.random() < 0.5)
+        if ac.none_ok(nodes):
+            o["none_ok"] = True
         case, obs = ac.run_adaptive(nodes, rng, rng.randint(6, 16), opts=o, flavour=flavour)
         ac.evaluate(ctx, case, obs, oracles, signatures)
